@@ -24,7 +24,8 @@ Record pdesc := mkPdesc {
 Record entry := mkEntry { e_pulse : pdesc; e_q : qspec; e_map : option (list (string * string)) }.
 
 Inductive err := ErrRemap | ErrSingleDim | ErrMultiDim | ErrDt | ErrClash | ErrN | ErrOmega | ErrCacheDiag
-               | ErrAddDim | ErrAddDup | ErrKey | ErrDupMap | ErrDupIds.
+               | ErrAddDim | ErrAddDup | ErrKey | ErrDupMap | ErrDupIds
+               | ErrNoArgs.   (* util.tensor_insert called without arguments: ValueError('Require nonzero number of args!') *)
 
 Inductive src := FromPulse (blk idx : nat) | Additional (k : nat).
 
@@ -188,7 +189,7 @@ Fixpoint cm_blocks (N : nat) (blocks : list (list nat)) (nns : list nat) (row : 
   end.
 
 (* identifiers pulse by pulse, control before noise, as the loops over the pulses do *)
-Fixpoint ids_of_blocks (bl : list (pdesc * list nat * option (list (string * string))))
+Fixpoint ids_of_blocks (N : nat) (bl : list (pdesc * list nat * option (list (string * string))))
   : err + (list string * list string) :=
   match bl with
   | [] => inr ([], [])
@@ -198,7 +199,10 @@ Fixpoint ids_of_blocks (bl : list (pdesc * list nat * option (list (string * str
       | inr c =>
         match map_ids (pd_nids p) m qs with
         | inl e => inl e
-        | inr n => match ids_of_blocks r with
+        | inr n =>
+          (* multi-qubit pulse on all N qubits (reached only when the shortcut is not taken): tensor_insert(.., pos=[]) *)
+          if (1 <? length qs) && (length (set_diff N qs) =? 0) then inl ErrNoArgs else
+          match ids_of_blocks N r with
                    | inl e => inl e
                    | inr (cs, ns) => inr (c ++ cs, n ++ ns)
                    end
@@ -228,7 +232,12 @@ Definition extend (entries : list entry) (Narg : option nat) (dq : nat)
   match (match Narg with None => Some (S last) | Some n => if n <? S last then None else Some n end) with
   | None => Raise ErrN
   | Some N =>
+  let plain := match entries, additional with
+               | [e], None => match e_map e with None => true | Some _ => false end
+               | _, _ => false
+               end in
   let shortcut :=
+    if negb plain then None else
     match entries, ps_multi ps, ps_single ps with
     | [_], [(_, qs, order, _)], _ => if N =? length qs then Some order else None
     | [_], [], [_] => if N =? 1 then Some [] else None
@@ -259,7 +268,7 @@ Definition extend (entries : list entry) (Narg : option nat) (dq : nat)
     | Some true => Some true
     end in
   match cd_res with None => Raise ErrCacheDiag | Some cd =>
-  match ids_of_blocks blocks with
+  match ids_of_blocks N blocks with
   | inr (cids, nids0) =>
     let add_check : option (list string * list src) :=
       match additional with
